@@ -182,6 +182,23 @@ class Flt(Engine):
         for nm in ('%c3%a9', 'a%09b', '%7f', 'x%80'):
             f = rng.choice(TEXT)
             yield Case('kf-name', ['rt %s %s:name=%s gen:rnd:%d:%d all -/1 %d %s' % (f, f, nm, rng.choice([0, 1, 45, 100]), rng.randrange(99), rng.choice([7, 10240]), rng.choice(['exact', 'all']))])
+        # 4c. hand-made gzip members: header with any subset of the optional fields, zlib's deflate of the
+        #     payload, an arbitrary 8-byte trailer (the read filter consumes it without verifying it)
+        for i in range(40 if tier == 'quick' else 600):
+            flags = rng.choice([0, 0, 2, 4, 8, 16, 4 | 8, 8 | 16, 2 | 4 | 8 | 16, rng.randrange(32)])
+            h = [0x1f, 0x8b, 8, flags] + [rng.randrange(256) for _ in range(4)] + [rng.choice([0, 2, 4]), rng.choice([3, 0, 255])]
+            if flags & 4:
+                n = rng.choice([0, 1, 5, 255, 256, 300])
+                h += [n & 255, n >> 8] + [rng.randrange(256) for _ in range(n)]
+            if flags & 8:
+                h += [rng.randrange(1, 256) for _ in range(rng.choice([0, 1, 8, 200]))] + [0]
+            if flags & 16:
+                h += [rng.randrange(1, 256) for _ in range(rng.choice([0, 1, 30]))] + [0]
+            if flags & 2:
+                h += [rng.randrange(256), rng.randrange(256)]
+            pl, _ = payload(rng, tier, big_ok=False)
+            yield Case('gzhdr', ['gz %s %s %s %d' % (''.join('%02x' % b for b in h), pl,
+                                 ''.join('%02x' % rng.randrange(256) for _ in range(8)), rng.choice([1, 7, 512, 10240]))])
         # 5. payloads that start with a compression signature (documented exception):
         #    exactly-those-filters must still round-trip; "all" is run only for crashes (mode allx)
         sig = list(SIGS)
@@ -197,6 +214,12 @@ class Flt(Engine):
     def oracle(self, case, impl):
         for op, o in zip(case.ops, impl):
             w = op.split()
+            if w[0] == 'gz':
+                if o.startswith('!'):
+                    return 'crash or sanitizer abort [gzip member %s]: %s' % (w[1][:40], o)
+                if ' eq=1' not in o or ' rcodes=1,0 ' not in o or ' data=ok' not in o:
+                    return 'gzip member with a valid header was not read back [header=%s]: %s' % (w[1][:60], o[:120])
+                continue
             tag = '[stack=%s opts=%s payload=%s]' % (w[1], w[2], w[3] if len(w[3]) < 60 else w[3][:60] + '…')
             if o.startswith('!'):
                 return 'crash or sanitizer abort %s: %s' % (tag, o)
@@ -231,6 +254,10 @@ class Flt(Engine):
         for c, im in zip(cases, impl):
             for op, o in zip(c.ops, im):
                 w = op.split()
+                if w[0] == 'gz':
+                    st['kinds']['gzhdr'] = st['kinds'].get('gzhdr', 0) + 1
+                    st['eq1'] += ' eq=1' in o
+                    continue
                 st['kinds'][c.label.split('-')[0].rstrip('0123456789')] = st['kinds'].get(c.label.split('-')[0].rstrip('0123456789'), 0) + 1
                 for f in w[1].split(','):
                     st['filters'][f] = st['filters'].get(f, 0) + 1
